@@ -122,10 +122,11 @@ class RTx:
 
 
 class RBlock:
-    __slots__ = ('height', 'header', 'size', 'txs', 'hash', 'stub')
+    __slots__ = ('height', 'header', 'size', 'txs', 'hash', 'stub', 'raw')
 
     def __init__(self, height, header, size, txs, hash_, stub):
         self.height, self.header, self.size, self.txs, self.hash, self.stub = height, header, size, txs, hash_, stub
+        self.raw = None            # real serialisation (real_txids mode)
 
 
 def ref_unspendable(script, height, activation):
@@ -138,6 +139,11 @@ def ref_unspendable(script, height, activation):
     if bool(height >= activation):
         return False
     return (n >= 1) and bool(script[0] == 0x6a)
+
+
+def _real_txid(tx):
+    import hashlib
+    return hashlib.sha256(hashlib.sha256(bytes(tx.serialize())).digest()).digest()
 
 
 def ref_merkle_root(hashes):
@@ -202,7 +208,8 @@ class _ConcreteSource:
         return 1000 + int.from_bytes(self.fresh_bytes(name, 3), 'big')
 
     def choice(self, name, n):
-        return 0
+        # a fixed but varied spend graph (not always the oldest output)
+        return int.from_bytes(self.fresh_bytes('choice/' + name, 4), 'big') % n
 
 
 class Sim:
@@ -234,6 +241,8 @@ class Sim:
         self.collide = set()       # frozenset({name, name}): pairs whose 4-byte prefixes may collide
         self.reserved = []         # outputs spent by prepared (mempool) transactions
         self.merkle_headers = False   # put the real merkle root of the tx hashes into the header (concrete mode)
+        self.real_txids = False       # concrete mode: tx hash = double_sha256(serialisation); blocks carry raw bytes
+        self._uniq = 0
         self.nonce = 0
         self.db = self.bp = self.env = None
         self.crashed = False
@@ -300,7 +309,8 @@ class Sim:
             txhash = self.new_hash(name)
             ins, rins = [], []
             if ts['ins'] == 'cb':
-                ins.append(TxInput(ZERO32 if self.native else self.wrap(ZERO32), MINUS_1, b'', 0))
+                cb_script = (b'\x03' + height.to_bytes(3, 'little') + bytes([self.nonce & 0xff])) if self.real_txids else b''
+                ins.append(TxInput(ZERO32 if (self.native or self.concrete) else self.wrap(ZERO32), MINUS_1, cb_script, 0))
             else:
                 for i in range(ts['ins']):
                     taken = {id(x) for rt in rtxs for x in rt.ins} | {id(x) for x in rins}
@@ -328,7 +338,13 @@ class Sim:
                 spendable = not ref_unspendable(script, height, self.activation)
                 routs.append(ROut(txhash, j, script, value, height, txnum, spendable, ref_hashX(script)))
                 outs.append(TxOutput(value, script))
-            tx = Tx(1, ins, outs, 0)
+            self._uniq += 1
+            tx = Tx(1, ins, outs, self._uniq if self.real_txids else 0)
+            if self.real_txids:
+                txhash = _real_txid(tx)
+                for o in routs:
+                    o.txhash = txhash
+                self.tx_hashes[-1] = (name, txhash)
             rt = RTx(txhash, rins, routs, height, txnum, tx)
             rtxs.append(rt)
             pairs.append((tx, txhash))
@@ -337,7 +353,13 @@ class Sim:
             header = header[:36] + ref_merkle_root([bytes(h) for _t, h in pairs]) + header[68:]
             bhash = double_sha256(header)
         size = 1000 + 7 * height + self.nonce
+        raw = None
+        if self.real_txids:
+            from electrumx.lib.util import pack_varint
+            raw = bytes(header) + pack_varint(len(pairs)) + b''.join(bytes(t.serialize()) for t, _h in pairs)
+            size = len(raw)
         blk = RBlock(height, header, size, rtxs, bhash, StubBlock(height, header, size, pairs))
+        blk.raw = raw
         chain.append(blk)
         return blk
 
@@ -370,7 +392,14 @@ class Sim:
             spendable = not ref_unspendable(script, height, self.activation)
             routs.append(ROut(txhash, j, script, value, None, None, spendable, ref_hashX(script)))
             outs_t.append(TxOutput(value, script))
-        rt = RTx(txhash, rins, routs, None, None, Tx(1, ins, outs_t, 0))
+        self._uniq += 1
+        tx = Tx(1, ins, outs_t, self._uniq if self.real_txids else 0)
+        if self.real_txids:
+            txhash = _real_txid(tx)
+            for o in routs:
+                o.txhash = txhash
+            self.tx_hashes[-1] = (name, txhash)
+        rt = RTx(txhash, rins, routs, None, None, tx)
         self.reserved += rins
         return rt
 
